@@ -63,4 +63,43 @@ def sentWrapStr (W : Nat) (i0 s0 : Str) (minLen : Nat) (md : Bool) (ws : List (W
 def sentNoWrap (i0 text : Str) : Str :=
   i0 ++ strip (text.map fun ch => if ch == '\n' then ' ' else ch)
 
+
+/-! ### `SENTENCE_END_RE` as a scanner
+
+`(\b\p{L}+[\p{Ll}])([.?!]['"’”)]?|['"’”)][.?!]) *$` searched in a word.  Character classes are a
+parameter (`CharCls`): the driver receives them per character from `unicodedata`. -/
+
+structure CharCls where
+  letter : Char → Bool   -- \p{L}
+  lower : Char → Bool    -- \p{Ll}
+  word : Char → Bool     -- \w
+
+def isEndPunct (c : Char) : Bool := c == '.' || c == '?' || c == '!'
+def isCloser (c : Char) : Bool := c == '\'' || c == '"' || c == '’' || c == '”' || c == ')'
+
+/-- `\b\p{L}+[\p{Ll}]` ending exactly where the (reversed) remainder starts: a maximal run of at
+least two letters whose last one is lowercase, preceded by a non-word character or the start. -/
+def lettersBefore (cls : CharCls) (rev : Str) : Bool :=
+  match rev with
+  | l :: _ =>
+    cls.lower l &&
+    (let run := rev.takeWhile cls.letter
+     let before := rev.dropWhile cls.letter
+     decide (2 ≤ run.length) &&
+     (match before with
+      | [] => true
+      | c :: _ => !cls.word c))
+  | [] => false
+
+def isSentenceEnd (cls : CharCls) (w : Word) : Bool :=
+  match w.reverse.dropWhile (· == ' ') with
+  | a :: rest =>
+    (isEndPunct a && lettersBefore cls rest) ||
+    (match rest with
+     | b :: rest2 =>
+       (isCloser a && isEndPunct b && lettersBefore cls rest2) ||
+       (isEndPunct a && isCloser b && lettersBefore cls rest2)
+     | [] => false)
+  | [] => false
+
 end FM
